@@ -37,6 +37,7 @@ Proof.
   destruct a, b; simpl; try (split; congruence).
   - rewrite String.eqb_eq. split; congruence.
   - rewrite names_eqb_eq. split; congruence.
+  - rewrite String.eqb_eq. split; congruence.
 Qed.
 
 Lemma optval_eqb_eq (a b : option pval) : optval_eqb a b = true <-> a = b.
@@ -432,6 +433,7 @@ Lemma dav_backend_status t path pf d :
   | Ok _ => True | Err c => c = 404%N \/ c = 400%N | Panic => False end.
 Proof.
   intros NF. unfold dav_backend, dav_scope.
+  destruct (has_nul path); [right; reflexivity|].
   destruct (negb (has_prefix (clean path) "/")); [right; reflexivity|].
   destruct (get t (rid path)) as [n|]; [|left; reflexivity].
   destruct (negb (is_d0 d) && is_dir n); cbn [bind];
